@@ -418,16 +418,17 @@ def C19TreeDeleteStatement (tc : TCfg) : Prop :=
     let t' := (tstep tc w (.on s .delete)).1.tree
     t'.files s = Files.none ∧ ((w.tree.gEmpty = false ∨ w.tree.gdir = false) → t'.gEmpty = true → t'.gdir = false)
 
-theorem C19_tree_delete_cleans : C19TreeDeleteStatement TCfg.climbing := by
+theorem C19_tree_delete_cleans : C19TreeDeleteStatement TCfg.current := by
   intro cls ops s
-  have hwf := trun_wf TCfg.climbing (.init cls) ops (by simp [Tree.WF, TWorld.init, Tree.init, Files.none, Files.isNone])
+  have hwf := trun_wf TCfg.current (.init cls) ops (by simp [Tree.WF, TWorld.init, Tree.init, Files.none, Files.isNone])
   refine ⟨?_, ?_⟩
   · cases s <;> simp only [tstep] <;> exact apply1_delete_files true _ _ _
   · intro hb
     cases s <;> simp only [tstep] <;> exact apply1_delete_climbs _ _ _ hwf hb
 
-/-- the tree as it is: deleting the storage of the only saved child removes `g/a/` and leaves the `g/` it emptied -/
-theorem C19_tree_delete_witness : ¬ C19TreeDeleteStatement TCfg.current := by
+/-- before `d82d12e` (finding KF-C19-6): deleting the storage of the only saved child removes `g/a/` and leaves the `g/`
+it emptied -/
+theorem C19_tree_delete_witness : ¬ C19TreeDeleteStatement TCfg.unclimbed := by
   intro h
   have := (h Cls.graph [.on .childA (.save .ok 1)] .childA).2
   revert this
@@ -522,10 +523,10 @@ example : (promiseT .main .init exTree) = ⟨some 9, []⟩ ∧ (promiseT .recove
 example : (trun TCfg.current (.init Cls.graph) exTree).tree =
     ⟨true, ⟨.absent, .good Cls.graph 9, .absent, .absent⟩, ⟨.good Cls.graph 2, .absent, .absent, .absent⟩,
       true, ⟨.absent, .good Cls.graph 3, .empty, .absent⟩, false, Files.none⟩ := by decide
--- the climbing clean-up differs from the tree as it is exactly when a nested clean-up empties `g/`
-example : (trun TCfg.current (.init Cls.graph) [.on .childA (.save .ok 1), .on .childA .delete]).tree.gdir = true ∧
-    (trun TCfg.climbing (.init Cls.graph) [.on .childA (.save .ok 1), .on .childA .delete]).tree = Tree.init ∧
-    (trun TCfg.climbing (.init Cls.graph) [.on .main (.save .ok 1), .on .childA (.save .ok 2), .on .childA .delete]).tree.gdir = true := by decide
+-- the climbing clean-up (the tree as it is) differs from the one before `d82d12e` exactly when a nested clean-up empties `g/`
+example : (trun TCfg.unclimbed (.init Cls.graph) [.on .childA (.save .ok 1), .on .childA .delete]).tree.gdir = true ∧
+    (trun TCfg.current (.init Cls.graph) [.on .childA (.save .ok 1), .on .childA .delete]).tree = Tree.init ∧
+    (trun TCfg.current (.init Cls.graph) [.on .main (.save .ok 1), .on .childA (.save .ok 2), .on .childA .delete]).tree.gdir = true := by decide
 
 end PwVerif.C19
 
